@@ -118,6 +118,32 @@ void sim::TcpNet::remoteClose(TcpConn *c)
     c->sock->flush();
 }
 
+void sim::TcpNet::drain(TcpConn *c, int maxBytes, bool announce)
+{
+    if (!c || c->outbox.isEmpty() || maxBytes <= 0) {
+        return;
+    }
+    const QByteArray b = c->outbox.left(maxBytes);
+    c->outbox.remove(0, b.size());
+    if (onWire) {
+        onWire(c, b);
+    }
+    if (announce && c->sock) {
+        Q_EMIT c->sock->bytesWritten(b.size());
+    }
+}
+
+qint64 QAbstractSocket::bytesToWrite() const
+{
+    if (!isSimulated(this)) {
+        using Fn = qint64 (*)(const QAbstractSocket *);
+        static Fn real = realSymbol<Fn>("_ZNK15QAbstractSocket12bytesToWriteEv");
+        return real(this);
+    }
+    auto *c = TcpNet::instance()->find(this);
+    return c ? c->outbox.size() : 0;
+}
+
 qint64 QAbstractSocket::readData(char *data, qint64 maxlen)
 {
     if (!isSimulated(this)) {
@@ -152,6 +178,10 @@ qint64 QAbstractSocket::writeData(const char *data, qint64 len)
     const QByteArray b(data, (int)len);
     c->written += b;
     c->writes++;
+    if (n->buffered) {
+        c->outbox += b;
+        return len;
+    }
     if (n->onWrite) {
         n->onWrite(c, b);
     }
@@ -182,8 +212,15 @@ void QAbstractSocket::disconnectFromHost()
         return;
     }
     if (c) {
+        // what is still buffered goes out before the FIN
+        TcpNet::instance()->drain(c, c->outbox.size(), false);
+        const bool wasUp = c->up;
         c->up = false;
         c->connectPending = false;
+        c->localClosed = true;
+        if (wasUp && TcpNet::instance()->onLocalClose) {
+            TcpNet::instance()->onLocalClose(c);
+        }
     }
     setSocketState(UnconnectedState);
     Q_EMIT stateChanged(UnconnectedState);
@@ -223,6 +260,9 @@ bool QAbstractSocket::flush()
         Q_EMIT disconnected();
         break;
     default:
+        if (auto *c = TcpNet::instance()->find(this)) {
+            TcpNet::instance()->drain(c, c->outbox.size());
+        }
         break;
     }
     return true;
